@@ -46,7 +46,10 @@ def kani_obligations(prop, tier):
                 if tier == "quick" and m.get("quickconfigs") and not h["configs"]:
                     cfgs = [c for c in cfgs if c in m["quickconfigs"]]
                 # //@ob also=<cfg,...>: additional configurations for this obligation only (the module is injected there too)
-                for c in (h["meta"].get("also") or "").split(","):
+                extra = (h["meta"].get("also") or "").split(",")
+                if tier == "thorough":
+                    extra += (h["meta"].get("also_thorough") or "").split(",")
+                for c in extra:
                     if c and c not in cfgs:
                         cfgs.append(c)
                 for c in cfgs:
